@@ -24,26 +24,39 @@ inductive COp where
   | vac
   | vacchk
   | reopen
+  /-- DROP TABLE tmpzz, autocommit (`none`) or in a session -/
+  | droptmp (s : Option String)
 
 def parseCOp (ws : List String) : Option COp :=
   match ws with
   | ["vac"] => some .vac
   | ["vacchk"] => some .vacchk
   | ["reopen"] => some .reopen
+  | ["db", "droptmp"] => some (.droptmp none)
+  | [s, "droptmp"] => if sessName s then some (.droptmp (some s)) else none
   | _ => (parseOp ws).map COp.h
 
-def parseCase (line : String) : Option (Setup × List COp) :=
+/-- (setup, side table `tmpzz` requested, ops) -/
+def parseCase (line : String) : Option (Setup × Bool × List COp) :=
   let line := line.trimAscii.toString
   if !line.startsWith "vac " then none
   else match (line.drop 4).toString.splitOn "|" with
     | [setup, ops] =>
-      match parseSetup (words setup) {} with
+      let ws := words setup
+      match parseSetup (ws.filter (· != "tmp")) {} with
       | none => none
       | some st =>
         let ops := ops.trimAscii.toString
-        if ops.isEmpty then some (st, [])
-        else (allSome ((ops.splitOn " ; ").map (fun o => parseCOp (words o)))).map (fun os => (st, os))
+        if ops.isEmpty then some (st, ws.contains "tmp", [])
+        else (allSome ((ops.splitOn " ; ").map (fun o => parseCOp (words o)))).map (fun os => (st, ws.contains "tmp", os))
     | _ => none
+
+/-- the side table `tmpzz (k BIGINT)` with rows 1, 2 lives outside the model's static catalog; all the driver tracks is
+    whether it has been dropped by a committed transaction, and which open sessions have an uncommitted DROP -/
+structure Tmp where
+  exists_ : Bool := false
+  dropped : Bool := false
+  pending : List String := []
 
 def parseV (flags : List String) : VDefects :=
   { vacuumRemovesUncommittedDelete := flags.contains "vacuumRemovesUncommittedDelete",
@@ -66,28 +79,55 @@ def showV : VOut → String
   | .dead o => if isFailure o then "nosession" else "PROPFAIL-killed-session-answered(" ++ showOut true o ++ ")"
 
 /-- SELECT * of every table by autocommit statements -/
-def selectAll (D : Defects) (V : VDefects) (tabs : List TableSchema) (τ : VState) : VState × List String :=
-  tabs.foldl (fun (acc : VState × List String) t =>
+def selectAll (D : Defects) (V : VDefects) (tabs : List TableSchema) (tmp : Tmp) (τ : VState) : VState × List String :=
+  let r := tabs.foldl (fun (acc : VState × List String) t =>
     let r := vstep D V acc.1 (.op (.auto (.sel t.name none)))
     (r.1, acc.2 ++ [t.name ++ "=" ++ showV r.2])) (τ, [])
+  if !tmp.exists_ then r
+  else if tmp.dropped then
+    -- a failing autocommit statement: its transaction is aborted
+    let q := vstep D V r.1 (.op (.auto (.sel "tmpzz" none)))
+    (q.1, r.2 ++ ["tmpzz=" ++ showV q.2])
+  else ((vstep D V r.1 (.op .tick)).1, r.2 ++ ["tmpzz=[1;2]"])
 
-def runOps (D : Defects) (V : VDefects) (tabs : List TableSchema) : VState → List COp → List String → VState × List String
-  | τ, [], acc => (τ, acc.reverse)
-  | τ, .h o :: os, acc =>
+def runOps (D : Defects) (V : VDefects) (tabs : List TableSchema) :
+    VState → Tmp → List COp → List String → VState × Tmp × List String
+  | τ, tmp, [], acc => (τ, tmp, acc.reverse)
+  | τ, tmp, .h o :: os, acc =>
     let r := vstep D V τ (.op o)
-    runOps D V tabs r.1 os (showV r.2 :: acc)
-  | τ, .vac :: os, acc => runOps D V tabs (vstep D V τ .vacuum).1 os ("vac" :: acc)
-  | τ, .reopen :: os, acc => runOps D V tabs (vstep D V τ .reopen).1 os ("reopen" :: acc)
-  | τ, .vacchk :: os, acc =>
-    let (τ1, before) := selectAll D V tabs τ
+    let tok := showV r.2
+    let tmp' : Tmp := match o with
+      | .commit s => if tmp.pending.contains s then { tmp with pending := tmp.pending.filter (· != s), dropped := tmp.dropped || tok == "ok" } else tmp
+      | .rollback s | .drop s | .begin s => { tmp with pending := tmp.pending.filter (· != s) }
+      | _ => tmp
+    runOps D V tabs r.1 tmp' os (tok :: acc)
+  | τ, tmp, .vac :: os, acc => runOps D V tabs (vstep D V τ .vacuum).1 { tmp with pending := [] } os ("vac" :: acc)
+  | τ, tmp, .reopen :: os, acc => runOps D V tabs (vstep D V τ .reopen).1 { tmp with pending := [] } os ("reopen" :: acc)
+  | τ, tmp, .vacchk :: os, acc =>
+    let (τ1, before) := selectAll D V tabs tmp τ
     let τ2 := (vstep D V τ1 .vacuum).1
-    let (τ3, after) := selectAll D V tabs τ2
+    let (τ3, after) := selectAll D V tabs tmp τ2
     let tok := if before == after then "vac(same)"
       else "PROPFAIL-vac-changed(" ++ joinWith "," before ++ "->" ++ joinWith "," after ++ ")"
-    runOps D V tabs τ3 os (tok :: acc)
+    runOps D V tabs τ3 { tmp with pending := [] } os (tok :: acc)
+  | τ, tmp, .droptmp none :: os, acc =>
+    if tmp.exists_ && !tmp.dropped then
+      runOps D V tabs (vstep D V τ (.op .tick)).1 { tmp with dropped := true } os ("ddl" :: acc)
+    else
+      let r := vstep D V τ (.op (.auto (.sel "tmpzz" none)))
+      runOps D V tabs r.1 tmp os (showV r.2 :: acc)
+  | τ, tmp, .droptmp (some s) :: os, acc =>
+    let τ' := (vstep D V τ (.op .nop)).1
+    match lookup s τ.db.sessions with
+    | Option.none => runOps D V tabs τ' tmp os ("nosession" :: acc)
+    | some _ =>
+      if tmp.exists_ && !tmp.dropped then
+        if τ.killed.contains s then runOps D V tabs τ' tmp os ("PROPFAIL-killed-session-answered(ddl)" :: acc)
+        else runOps D V tabs τ' { tmp with pending := s :: tmp.pending } os ("ddl" :: acc)
+      else runOps D V tabs τ' tmp os ((if τ.killed.contains s then "nosession" else "notfound") :: acc)
 
-def runSetup (D : Defects) (V : VDefects) (st : Setup) : Option VState :=
-  (setupOps st).foldl (fun (acc : Option VState) o =>
+def runSetup (D : Defects) (V : VDefects) (st : Setup) (tmp : Bool) : Option VState :=
+  (setupOps st ++ (if tmp then [Op.tick, Op.tick] else [])).foldl (fun (acc : Option VState) o =>
     match acc with
     | none => none
     | some τ =>
@@ -96,12 +136,12 @@ def runSetup (D : Defects) (V : VDefects) (st : Setup) : Option VState :=
       | .out x => if isFailure x then none else some r.1
       | .dead _ => none) (some (VState.init st.tables))
 
-def runHist (D : Defects) (V : VDefects) (st : Setup) (ops : List COp) : String :=
-  match runSetup D V st with
+def runHist (D : Defects) (V : VDefects) (st : Setup) (tmp : Bool) (ops : List COp) : String :=
+  match runSetup D V st tmp with
   | none => "bad-setup"
   | some τ0 =>
-    let (τ1, toks) := runOps D V st.tables τ0 ops []
-    let (_, fin) := selectAll D V st.tables τ1
+    let (τ1, tmp1, toks) := runOps D V st.tables τ0 { exists_ := tmp } ops []
+    let (_, fin) := selectAll D V st.tables tmp1 τ1
     s!"{joinWith " " toks} | {joinWith " " fin}"
 
 /-! ### growth family -/
@@ -124,7 +164,7 @@ def parseCycles (line : String) : Option Cycles :=
       match parseNum (a.drop 5).toString, parseNum (b.drop 7).toString, parseNum (c.drop 7).toString with
       | some n, some cy, some k =>
         let how := (d.drop 4).toString
-        if (how = "auto" || how = "sess" || how = "batch" || how = "rbk") && 1 ≤ n && n ≤ 2000 && 1 ≤ cy && cy ≤ 200 then
+        if (how = "auto" || how = "sess" || how = "batch" || how = "rbk") && 1 ≤ n && n ≤ 2000 && 1 ≤ cy && cy ≤ 400 then
           some ⟨n, cy, k, how⟩
         else none
       | _, _, _ => none
@@ -196,10 +236,10 @@ def runLine (flags : List String) (line : String) : String :=
   else
     match parseCase line with
     | none => "bad-op"
-    | some (st, ops) =>
-      if hasDup (st.tables.map (·.name)) then "bad-setup"
+    | some (st, tmp, ops) =>
+      if hasDup (st.tables.map (·.name)) || st.tables.any (fun t => t.name == "tmpzz" || t.name == "warmupzz") then "bad-setup"
       else
-        let go (fl : List String) : String := runHist (parseDefects fl) (parseV fl) st ops
+        let go (fl : List String) : String := runHist (parseDefects fl) (parseV fl) st tmp ops
         let out := go flags
         let known := defectNames ++ vNames
         let fired := (flags.filter known.contains).filter (fun f => go (flags.filter (· != f)) != out)
